@@ -15,6 +15,7 @@ type cacheControl struct {
 
 func parseCacheControl(ccHeader string) (cacheControl, error) {
 	cc := cacheControl{}
+	var parseErr error
 	// Parse the Cache-Control header for max-age directive
 	for directive := range strings.SplitSeq(ccHeader, ",") {
 		// Directive names are case-insensitive (RFC 9111 section 5.2)
@@ -26,7 +27,11 @@ func parseCacheControl(ccHeader string) (cacheControl, error) {
 			// max-age directive specifies the maximum amount of time a response is considered fresh in seconds.
 			maxAge, err := strconv.ParseInt(after, 10, 64)
 			if err != nil {
-				return cacheControl{}, fmt.Errorf("%w: %v", ErrParseMaxAge, err)
+				// Invalid freshness information: the response must not be reused (RFC 9111 section 4.2.1).
+				// Keep going so that the other directives of the header are still seen.
+				cc.noCache = true
+				parseErr = fmt.Errorf("%w: %v", ErrParseMaxAge, err)
+				continue
 			}
 			if maxAge < 1 {
 				cc.noCache = true // If max-age is less than 1, treat it as no-cache
@@ -37,5 +42,5 @@ func parseCacheControl(ccHeader string) (cacheControl, error) {
 		}
 	}
 
-	return cc, nil
+	return cc, parseErr
 }
